@@ -320,3 +320,30 @@ def eval_int_guard(expr, env, opaque=None):
             return rec(n.args[0])
         raise AnalysisError('ordering evaluator: unrecognised guard %s at %s' % (unparse(n), loc(n)))
     return rec(expr)
+
+
+def excludes(conds, atom_text, value=True):
+    """Do the path conditions rule out `atom_text` having truth value `value`?  Every other atom is
+    universally quantified (the conditions must fail for all their valuations)."""
+    for t, p, k in conds:
+        if k == 'for':
+            continue
+        atz = text_atomizer({atom_text: 'X'}, strict=False)
+        try:
+            ats = atoms_of(t, atz)
+        except AnalysisError:
+            continue
+        if 'X' not in ats:
+            continue
+        others = [a for a in ats if a != 'X']
+        if len(others) > 12:
+            continue
+        ok = True
+        for val in valuations(others):
+            val['X'] = value
+            if eval_prop(t, atz, val) == p:
+                ok = False
+                break
+        if ok:
+            return True
+    return False
